@@ -117,6 +117,7 @@ func main() {
 		desc := map[string]any{"proto": proto, "v6": v6, "tid": tid, "elements": names, "records": len(recs)}
 		c.Journal(k, desc)
 		tpath := r.IntN(4)
+		broken := false
 		c.Guard(k, "exporter", desc, func() {
 			tset, err := lib.TemplateSet(tid, elems, tpath)
 			if err != nil {
@@ -132,6 +133,7 @@ func main() {
 			raw, ok := s.Take(n, wait)
 			if !ok {
 				c.Inconclusive(fmt.Sprintf("case %d: template message did not arrive at the raw peer", k))
+				broken = true // a late arrival would be taken for a later case: this session is not used again
 				return
 			}
 			if !checkMessage(c, k, desc, s, raw, n, true, tid, elems, nil, templatesWire[skey], tBefore) {
@@ -182,12 +184,19 @@ func main() {
 			raw, ok = s.Take(n, wait)
 			if !ok {
 				c.Inconclusive(fmt.Sprintf("case %d: data message (%d bytes) did not arrive at the raw peer", k, n))
+				broken = true
 				return
 			}
 			if checkMessage(c, k, desc, s, raw, n, false, tid, elems, recs, templatesWire[skey], tBefore) {
 				c.Nontrivial(hx.H64(raw[20:]))
 			}
 		})
+		if broken || c.NumViolations() > 0 {
+			// never reuse a session whose capture position is in doubt
+			s.Close()
+			delete(sessions, skey)
+			delete(templatesWire, skey)
+		}
 		if k < from+6 {
 			c.Sample(6, desc)
 		}
